@@ -473,7 +473,8 @@ def _match_search(w):
 
 # ------------------------------------------------------------------------ R3
 def guards(chk, fn, q):
-    k = KernelS(chk.src, PS, q, {}, {}, {})
+    from ..spec.contracts import CONTRACTS
+    k = KernelS(chk.src, PS, q, CONTRACTS.get(f'{PS}:{q}', {}), {}, {})
     k._scan_cursors()
     n = 0
     for b, cur in k.cursors.items():
